@@ -3,7 +3,8 @@
    in base ten (digit strings are positional, leading zeros allowed), without reference to the model
    of the parser's conversions (Model/Conv.v), which goes through the standard library's
    DecimalString. JSON escaping of transaction metadata is glue, covered by the correspondence. *)
-From NS Require Import Conv Decimal ConvProofs.
+From Coq Require Import Ascii.
+From NS Require Import Conv Decimal ConvProofs ConvRoundtrip.
 
 (* a portion literal n/d, p%, p.q% (one optional space around the slash, any number of digits,
    leading zeros) is converted to exactly the fraction it denotes in base ten *)
@@ -27,7 +28,19 @@ Theorem C13_account_roundtrip : forall s,
   valid_account_name s = true -> parse_var TypeAccount (value_string (VAccount s)) = Ok (VAccount s).
 Proof. exact account_roundtrip. Qed.
 
+(* a monetary value, whatever its sign and size: "ASSET amount" (asset names contain no space) *)
+Theorem C13_monetary_roundtrip : forall a n,
+  all_chars (fun c => negb (Ascii.eqb c " "%char)) a = true ->
+  parse_var TypeMonetary (value_string (VMonetary a n)) = Ok (VMonetary a n).
+Proof. exact monetary_roundtrip. Qed.
+(* a portion in [0, 1]: written in lowest terms "n/d", read back as the same fraction *)
+Theorem C13_portion_roundtrip : forall q, (0 <= q)%Q -> (q <= 1)%Q ->
+  parse_var TypePortion (value_string (VPortion q)) = Ok (VPortion (Qred q)).
+Proof. exact portion_roundtrip. Qed.
+
 Print Assumptions C13_portion_literal_exact.
+Print Assumptions C13_monetary_roundtrip.
+Print Assumptions C13_portion_roundtrip.
 Print Assumptions C13_number_roundtrip.
 
 Example C13_example :
